@@ -240,6 +240,8 @@ VARIANTS = [
     ("file-layer-inspects-the-word-list", F, ["C15"], [(AF, "        if sensitive_words is not None:\n            self.anonymizer_sensitive_word", "        if sensitive_words is not None and as_numbers is not None:\n            overlap = sorted(set(as_numbers).intersection(sensitive_words))\n            if overlap:\n                logging.warning(\"AS numbers that are also sensitive words: %s\", \", \".join(overlap))\n        if sensitive_words is not None:\n            self.anonymizer_sensitive_word")]),
     ("return-before-the-dump-when-a-file-failed", F, ["C17"], [(AF, "            logging.error(\"Failed to anonymize file %s\", in_path, exc_info=True)\n", "            logging.error(\"Failed to anonymize file %s\", in_path, exc_info=True)\n            failed.append(in_path)\n"), (AF, "    for in_path, out_path in file_list:\n", "    failed = []\n    for in_path, out_path in file_list:\n"), (AF, "    if dumpfile is not None:\n", "    if failed:\n        return failed\n\n    if dumpfile is not None:\n")]),
     ("debug-line-indexes-the-string-before-validation", F, ["C18", "C14"], [(JS, "    if not crypt or not re.search(VALID, crypt):", "    if crypt:\n        _first = crypt[len(MAGIC)]\n    if not crypt or not re.search(VALID, crypt):")]),
+    ("ignorecase-added-to-the-ipv4-pattern", F, ["C06"], [(IP, "        enclosing=_IPv4_ENCLOSING,\n        octet=_IPv4_OCTET_PATTERN,\n    )\n)\n", "        enclosing=_IPv4_ENCLOSING,\n        octet=_IPv4_OCTET_PATTERN,\n    ),\n    re.IGNORECASE,\n)\n")]),
+    ("salt-or-none-in-the-hand-over", F, ["C02", "C19"], [(AF, "        salt=salt,\n", "        salt=salt or None,\n")]),
     ("unused-module-constant-from-library-call", S, None, [(SI, "_ANON_SENSITIVE_WORD_LEN = 6", "_ANON_SENSITIVE_WORD_LEN = 6\n_HEX_DIGITS = frozenset('0123456789abcdef')")]),
 ]
 
